@@ -85,13 +85,14 @@ def _axis_class(grids, x, on_boundary_only):
 
 
 def _exc_key(driver, method, e, context, cls=None, grids=None, x=None, axis=None):
-    """Mechanism key for an exception on a legal call.
+    """Mechanism key for an exception on a legal call.  The mechanism (exception type + raising function)
+    comes first, the cell (driver, method) last, so that a '*' prefix can cover one mechanism narrowly.
 
     Raised by the bounds test itself -> 'bounds:in-bounds-raises:<Exc>@<where>:axis=<class of the grid axis the
     point sits on>:pt=<point class>:driver=<driver>';
-    raised by evaluation code -> '<driver>:<method>:raises:<Exc>@<where>:<context>', except for the one-point call
-    after a batched call on a fixed table, which is one mechanism for all fixed tables:
-    'fixed:single-after-batched-raises:<Exc>@<where>:<method>'."""
+    the one-point call after a batched call on a fixed table (one mechanism for all fixed tables) ->
+    'fixed:single-after-batched-raises:<Exc>@<where>:<method>';
+    raised by evaluation code -> 'raises:<Exc>@<where>:<context>:<driver>:<method>'."""
     w = _where(e)
     n = type(e).__name__
     if context == 'in-bounds' and (w.endswith(':_interpolate') or w.endswith(':bracket')):
@@ -100,7 +101,16 @@ def _exc_key(driver, method, e, context, cls=None, grids=None, x=None, axis=None
         return 'bounds:in-bounds-raises:%s@%s:axis=%s:pt=%s:driver=%s' % (n, w, axis, cls, driver)
     if context == 'single-after-batched' and method in R.FIXED_DIM:
         return 'fixed:single-after-batched-raises:%s@%s:%s' % (n, w, method)
-    return '%s:%s:raises:%s@%s:%s' % (driver, method, n, w, context)
+    return 'raises:%s@%s:%s:%s:%s' % (n, w, context, driver, method)
+
+
+def _outside_axis_class(grids, x):
+    """Grid class of the axis (axes) on which x lies outside the grid."""
+    cl = [R.grid_class(g) for g, xd in zip(grids, x) if xd < g[0] or xd > g[-1]]
+    for c in ('end-neg', 'end-zero', 'end-pos'):
+        if c in cl:
+            return c
+    return 'none'
 
 
 def build(case):
@@ -242,14 +252,14 @@ def judge_interp(case, acc):
                 acc.count('obs:node-value')
                 ref = float(tab_rand[ix])
                 if not abs(vr - ref) <= tol_r[k]:
-                    rep.viol('%s:node-value' % method,
+                    rep.viol('node-value:interp:%s' % method,
                              'node %s: got %r, table %r (|d|=%.3g, tol %.3g)' % (list(ix), vr, ref, abs(vr - ref),
                                                                                  tol_r[k]))
             acc.count('obs:exactness')
             ref = poly(x)
             tol = tol_p[k] + 8 * R.EPS * poly.abs_sum
             if not abs(vp - ref) <= tol:
-                rep.viol('%s:exactness' % method,
+                rep.viol('exactness:interp:%s' % method,
                          '%s point %s: got %r, polynomial %r (|d|=%.3g, tol %.3g)' % (cls, x.tolist(), vp, ref,
                                                                                      abs(vp - ref), tol))
             if it_g is not None:
@@ -261,7 +271,7 @@ def judge_interp(case, acc):
                     acc.count('obs:fixed-vs-general')
                     tol = tol_r[k] + R.value_tol(R.GENERAL_OF[method], grids, x, vmax_r)
                     if not abs(vr - vg) <= tol:
-                        rep.viol('%s:differs-from-general' % method,
+                        rep.viol('differs-from-general:interp:%s' % method,
                                  '%s point %s: fixed %r, general %r (|d|=%.3g, tol %.3g)'
                                  % (cls, x.tolist(), vr, vg, abs(vr - vg), tol))
         else:
@@ -278,7 +288,7 @@ def judge_interp(case, acc):
                     acc.count('obs:extrapolated-no-raise')
             else:
                 if raised is None:
-                    rep.viol('bounds:outside-not-raised:pt=%s:axis=%s' % (cls, _axis_class(grids, x, False)),
+                    rep.viol('outside-not-raised:interp:axis=%s:pt=%s' % (_outside_axis_class(grids, x), cls),
                              '%s x=%s grid ends=%s accepted with extrapolate=False'
                              % (method, x.tolist(), [(g[0], g[-1]) for g in grids]))
                 else:
@@ -294,7 +304,7 @@ def judge_interp(case, acc):
             acc.count('obs:constant-table')
             tolk = tol_r[k] * abs(cval) / vmax_r + 8 * R.EPS * abs(cval)
             if not abs(vc - cval) <= tolk:
-                rep.viol('%s:constant-table' % method, 'constant table %r interpolated as %r at %s'
+                rep.viol('constant-table:interp:%s' % method, 'constant table %r interpolated as %r at %s'
                          % (cval, vc, x.tolist()))
                 break
     except Exception as e:
@@ -310,12 +320,12 @@ def judge_interp(case, acc):
             br = None
         if br is not None:
             if br.shape != (len(ks),):
-                rep.viol('%s:batched-shape' % method, 'shape %s for %d points' % (br.shape, len(ks)))
+                rep.viol('batched-shape:interp:%s' % method, 'shape %s for %d points' % (br.shape, len(ks)))
             else:
                 for j, k in enumerate(ks):
                     acc.count('obs:batch-vs-single')
                     if not abs(br[j] - single_r[k]) <= 2 * tol_r[k]:
-                        rep.viol('%s:batch-vs-single' % method,
+                        rep.viol('batch-vs-single:interp:%s' % method,
                                  '%s point %s: batched %r, alone %r' % (pts[k][1], pts[k][0].tolist(), br[j],
                                                                        single_r[k]))
                         break
@@ -323,7 +333,7 @@ def judge_interp(case, acc):
                     ref = poly(pts[k][0])
                     tol = tol_p[k] + 8 * R.EPS * poly.abs_sum
                     if not abs(bp[j] - ref) <= tol:
-                        rep.viol('%s:exactness-batched' % method,
+                        rep.viol('exactness-batched:interp:%s' % method,
                                  '%s point %s: got %r, polynomial %r (|d|=%.3g, tol %.3g)'
                                  % (pts[k][1], pts[k][0].tolist(), bp[j], ref, abs(bp[j] - ref), tol))
                         break
@@ -334,7 +344,7 @@ def judge_interp(case, acc):
             again = float(np.asarray(it_r.interpolate(pts[k][0].copy())).ravel()[0])
             acc.count('obs:single-after-batched')
             if not abs(again - single_r[k]) <= 2 * tol_r[k]:
-                rep.viol('%s:single-after-batched' % method, 'before the batched call %r, after it %r'
+                rep.viol('single-after-batched:interp:%s' % method, 'before the batched call %r, after it %r'
                          % (single_r[k], again))
         except Exception as e:
             rep.viol(_exc_key('interp', method, e, 'single-after-batched'), str(e)[:160])
@@ -439,13 +449,13 @@ def judge_comp(case, acc):
             if ix is not None:
                 ref = float(tab_rand[ix])
                 if not abs(vr[j] - ref) <= tol_r[k]:
-                    rep.viol('%s:%s:node-value' % (driver, method),
+                    rep.viol('node-value:%s:%s' % (driver, method),
                              'node %s: output %r, table %r (tol %.3g)' % (list(ix), vr[j], ref, tol_r[k]))
                     break
             ref = poly(x)
             tol = tol_p[k] + 8 * R.EPS * poly.abs_sum
             if not abs(vp[j] - ref) <= tol:
-                rep.viol('%s:%s:exactness' % (driver, method),
+                rep.viol('exactness:%s:%s' % (driver, method),
                          '%s point %s: output %r, polynomial %r (|d|=%.3g, tol %.3g)'
                          % (cls, x.tolist(), vp[j], ref, abs(vp[j] - ref), tol))
                 break
@@ -476,7 +486,7 @@ def judge_comp(case, acc):
             acc.count('obs:%s-constant-table' % driver)
             tolk = max(tol_r[k] for k in ks) * abs(cval) / vmax_r + 8 * R.EPS * abs(cval)
             if not np.all(np.abs(vk - cval) <= tolk):
-                rep.viol('%s:%s:constant-table' % (driver, method),
+                rep.viol('constant-table:%s:%s' % (driver, method),
                          'constant table %r interpolated as %s' % (cval, vk.tolist()))
         except Exception as e:
             rep.viol(_exc_key(driver, method, e, 'constant-table'),
@@ -502,8 +512,8 @@ def judge_comp(case, acc):
                              '%s x=%s: %s' % (method, pts[k][0].tolist(), str(raised)[:120]))
             else:
                 if raised is None:
-                    rep.viol('%s:outside-not-raised:pt=%s:axis=%s'
-                             % (driver, pts[k][1], _axis_class(grids, pts[k][0], False)),
+                    rep.viol('outside-not-raised:%s:axis=%s:pt=%s'
+                             % (driver, _outside_axis_class(grids, pts[k][0]), pts[k][1]),
                              '%s x=%s accepted with extrapolate=False' % (method, pts[k][0].tolist()))
                 else:
                     acc.count('obs:%s-oob-raised' % driver)
